@@ -172,7 +172,9 @@ DoArith(st, op, a, b, ln) ==
 
 DoConcat(st, a, b, ln) ==
     LET x == ToStr(a)  y == ToStr(b) IN
-    IF x[1] = "s" /\ y[1] = "s" THEN PushV(st, <<Str(x[2] \o y[2])>>)
+    IF x[1] = "s" /\ y[1] = "s"
+    THEN (IF Len(x[2]) + Len(y[2]) > 4000 THEN Unmod(st, "string too long")      \* a program doubling a string in nested loops: outside the model
+          ELSE PushV(st, <<Str(x[2] \o y[2])>>))
     ELSE IF x[1] = "un" \/ y[1] = "un" THEN Unmod(st, "concat of fault text")
     ELSE LET h == BinHandler(st, a, b, "__concat") IN
          IF h = Nil THEN Fault(st, ln) ELSE CallValue(st, h, <<a, b>>, FALSE, ln)
